@@ -157,18 +157,37 @@ def groups_of(nbars, cuts):
     return [(edges[i], edges[i + 1]) for i in range(len(edges) - 1)]
 
 
-def chunks_for(piece, route, cuts):
-    """Returns (list of chunks, each a list of one Sequence per track)."""
+def shared_bars(piece, route):
+    """piece["shared"] (R1 / R2 only): the single call and the chunked calls are fed from the SAME Bar objects, the way a user
+    comparing the two would do it - Bar.to_sequence / concatenate share the bars' Message objects by design, so the single
+    call (which runs first and sets the channels of its inputs in place) reaches into the bars. With "abs" every bar has had
+    its absolute view built by a public read before anything is tokenised."""
+    bars = build_bars_R1(piece) if route == "R1" else build_bars_R2(piece)
+    if piece.get("shared") == "abs":
+        for track_bars in bars:
+            for b in track_bars:
+                b.sequence.get_sequence_duration()
+    return bars
+
+
+def chunks_for(piece, route, cuts, bars=None):
+    """Returns (list of chunks, each a list of one Sequence per track). `bars`: the Bar objects the single call was built
+    from (shared mode); a group of one bar is then that bar's own sequence object."""
     nt = piece["ntracks"]
     nb = len(piece["bars"])
     groups = groups_of(nb, cuts)
     if route in ("R1", "R2"):
-        bars = build_bars_R1(piece) if route == "R1" else build_bars_R2(piece)
+        shared = bars is not None
+        if bars is None:
+            bars = build_bars_R1(piece) if route == "R1" else build_bars_R2(piece)
         nb2 = min(len(b) for b in bars)
         groups = groups_of(nb2, cuts)
         out = []
         for lo, hi in groups:
-            out.append([Bar.to_sequence(bars[tr][lo:hi]) for tr in range(nt)])
+            if shared and hi - lo == 1:
+                out.append([bars[tr][lo].sequence for tr in range(nt)])
+            else:
+                out.append([Bar.to_sequence(bars[tr][lo:hi]) for tr in range(nt)])
         return out
     if route == "R4":
         # harness-built sequences per group, exactly as long as their content (no padding to the bar line, no cap): the
@@ -341,7 +360,13 @@ class TokWorld:
         for ci, cl in enumerate(self.clients):
             try:
                 ref_tok = make_tokeniser(self.cfg)
-                whole = whole_for(cl.piece, cl.route)
+                bars = None
+                if cl.piece.get("shared") and cl.route in ("R1", "R2"):
+                    bars = shared_bars(cl.piece, cl.route)
+                    whole = [Bar.to_sequence(bars[tr]) for tr in range(cl.piece["ntracks"])]
+                    self.stats[f"reach_shared/{cl.piece['shared']}"] += 1
+                else:
+                    whole = whole_for(cl.piece, cl.route)
                 toks = ref_tok.tokenise(whole, insert_bar_token=self.insert_bar)
                 cl.ref_stream = interpret_stream(toks, self.cfg)
                 try:
@@ -357,7 +382,7 @@ class TokWorld:
                     self.foreign = "harness:groups-are-not-whole-bars"
                     self.log.add("prepare", ci, "foreign", self.foreign)
                     return False
-                cl.chunks = chunks_for(cl.piece, cl.route, cl.cuts)
+                cl.chunks = chunks_for(cl.piece, cl.route, cl.cuts, bars=bars)
             except core.RunTimeout:
                 raise
             except Exception as e:
@@ -647,6 +672,8 @@ def gen_cfg(rng):
 
 def tok_run_one(seed, tier, index):
     rng = random.Random(seed)
+    # a side stream for choices added later: the main stream (and with it every run found so far) stays as it was
+    side = random.Random(f"c03-side:{seed}")
     cfg = gen_cfg(rng)
     lane = "baseline" if rng.random() < 0.15 else "fault"
     nclients = 1 if (lane == "baseline" or rng.random() < 0.5) else rng.choice([2, 2, 3] if tier == "quick" else [2, 3, 4])
@@ -691,6 +718,9 @@ def tok_run_one(seed, tier, index):
                 route = "R3"
                 piece.pop("tail_partial", None)
                 piece.pop("group_tails", None)
+        piece.pop("shared", None)
+        if route in ("R1", "R2") and side.random() < 0.4:
+            piece["shared"] = side.choice(["abs", "abs", "plain"])
         clients.append({"piece": piece, "route": route, "cuts": cuts})
     init = {"cfg": cfg, "clients": clients}
     world = TokWorld(init)
